@@ -212,6 +212,9 @@ where
                 return Err(invalid_hole_err(hole_pos));
             }
             nodes.extend(compact_nodes.by_ref().take(hole_pos - node_pos));
+            if nodes.len() != hole_pos {
+                return Err(invalid_hole_err(hole_pos));
+            }
             nodes.push(Node {
                 weight: None,
                 next: [EdgeIndex::end(); 2],
